@@ -9,6 +9,7 @@ CFG = {
              "maps through Font::save and format-3 loads. non-trivial = a legacy load with at least one group to duplicate, or a map "
              "holding a public.kern1./public.kern2. group; distinct by input tokens"),
     "exhaustive": {"quick": True, "thorough": True},
+    "search_timeout": 200,
     "exhaustive_note": "triples over the 6-name pool with <=3 groups (one private member each), <=1 (quick) / <=3 (thorough) pairs, glyph set empty or one group name; the random part is not exhaustive",
     "trusted_base": COMMON_TRUST + [
         "modelled, not verified: plist parsing of groups.plist / kerning.plist into BTreeMaps (the harness writes the files, norad's observation is compared with the maps the harness intended)",
